@@ -114,6 +114,7 @@ type Job struct {
 	Key      string   `json:"key"`
 	MaxCases int      `json:"max_cases"` // 0: engine default
 	ShrinkN  int      `json:"shrink_budget"`
+	StartCase int     `json:"start_case"` // range mode: skip case numbers below this (restart after a lost case)
 	From     int      `json:"from"` // determinism mode: cases [from,to)
 	To       int      `json:"to"`
 }
@@ -243,6 +244,9 @@ func runRange(tb *testing.T, e *Engine, job *Job, out *Out) {
 	var sampleCases []int
 	total := nEnum + nSamp
 	for c := job.Worker; c < total; c += job.Workers {
+		if c < job.StartCase {
+			continue
+		}
 		if c >= nEnum && job.Deadline > 0 && time.Now().UnixMilli() > job.Deadline {
 			break
 		}
